@@ -121,9 +121,13 @@ func c12genPacket(rng *core.Rng, tag string) c12packet {
 	if rng.Intn(10) != 0 {
 		p.Pairs = append(p.Pairs, [2]string{"user", core.Pick(rng, []string{"u" + tag, "", "postgres", "ü" + tag, strings.Repeat("n", 300), rng.Ident(rng.BoundaryLen())})})
 	}
-	for n := rng.Intn(core.Pick(rng, []int{1, 4, 10, 50})); n > 0; n-- {
+	npairs := rng.Intn(core.Pick(rng, []int{1, 4, 10, 50, 50, 600}))
+	for n := npairs; n > 0; n-- {
 		k := core.Pick(rng, []string{"database", "application_name", "client_encoding", "options", "user", "DateStyle", rng.Ident(1 + rng.Intn(10)), "ключ" + rng.Ident(2)})
 		v := core.Pick(rng, []string{"", "v" + tag, rng.Text(1+rng.Intn(40), true), strings.Repeat("v", 2000)})
+		if npairs > 20 && len(v) > 60 {
+			v = v[:8] // keep the whole packet below the 64 KiB message limit of the harness servers
+		}
 		p.Pairs = append(p.Pairs, [2]string{k, v})
 	}
 	if rng.Intn(6) == 0 {
